@@ -10,6 +10,7 @@ package main
 
 import (
 	"bytes"
+	gocontext "context"
 	"encoding/binary"
 	"encoding/json"
 	"fmt"
@@ -53,6 +54,7 @@ type roundResult struct {
 	Overlaps     int    `json:"overlaps"`
 	Frames       int    `json:"frames"`
 	Payloads     int    `json:"payloads"`
+	KeepAlives   int    `json:"keep_alive_messages"`
 	ArrivalOrder string `json:"arrival_order"`
 	Delays       int64  `json:"delays"`
 }
@@ -209,6 +211,18 @@ func runRound(seed int64, transport string, writers, writes int, delays bool) ro
 			}
 		}(w)
 	}
+	var stopKeepAlive func()
+	if !handover {
+		// a keep-alive runs on the same connection (its own goroutine, its own way into the connection): empty EVENT
+		// messages between the payloads
+		kctx, cancel := gocontext.WithCancel(gocontext.Background())
+		kdone := make(chan struct{})
+		go func() {
+			defer close(kdone)
+			hap.NewKeepAlive(time.Duration(100+rnd.Intn(400))*time.Microsecond, ctx).Start(kctx)
+		}()
+		stopKeepAlive = func() { cancel(); <-kdone }
+	}
 	if handover {
 		// the writers are released while the M4 write is between its socket write and the activation of the
 		// encrypter; whatever they write must still come out encrypted, after M4
@@ -221,6 +235,9 @@ func runRound(seed int64, transport string, writers, writes int, delays bool) ro
 		close(start)
 	}
 	wg.Wait()
+	if stopKeepAlive != nil {
+		stopKeepAlive()
+	}
 	atomic.StoreInt32(&hookMode, 0)
 	raw := captured()
 	res := checkStream(secret, raw, recs, sent)
@@ -234,6 +251,13 @@ func runRound(seed int64, transport string, writers, writes int, delays bool) ro
 	}
 	return res
 }
+
+// keepAliveMsg is what hap.KeepAlive writes: an EVENT message without content
+var keepAliveMsg = func() []byte {
+	var b bytes.Buffer
+	hap.NewNotification(new(bytes.Buffer)).Write(&b)
+	return hap.FixProtocolSpecifier(b.Bytes())
+}()
 
 func checkStream(secret [32]byte, raw []byte, recs [][]writeRec, sent map[[2]int][]byte) roundResult {
 	var res roundResult
@@ -302,6 +326,11 @@ func checkStream(secret [32]byte, raw []byte, recs [][]writeRec, sent map[[2]int
 	off := 0
 	idx := 0
 	for off < len(plain) {
+		if bytes.HasPrefix(plain[off:], keepAliveMsg) {
+			res.KeepAlives++
+			off += len(keepAliveMsg)
+			continue
+		}
 		if len(plain)-off < 14 {
 			return fail("stream:payload-interleaved", "trailing bytes do not form a payload header", map[string]interface{}{"offset": off})
 		}
@@ -390,6 +419,7 @@ func main() {
 	r.Count("writers_released_at_conn.write.written", int(atomic.LoadInt64(&hookReleases)))
 	r.Floor("delays taken at hook point conn.write.sealed", int(atomic.LoadInt64(&hookDelay)), rounds)
 	r.Floor("handover rounds released at hook point conn.write.written", int(atomic.LoadInt64(&hookReleases)), rounds/40)
+	r.Floor("keep_alive_messages_between_payloads", int(r.Counter("keep_alive_messages_between_payloads")), rounds)
 	r.Floor("rounds_with_overlapping_writes", int(r.Counter("rounds_with_overlapping_writes")), rounds/2)
 	r.Floor("overlapping_write_pairs", int(r.Counter("overlapping_write_pairs")), 2000)
 	r.Floor("distinct arrival orders", r.DistinctN("arrival_order"), rounds/4)
@@ -408,6 +438,7 @@ func record(r *vf.Run, res roundResult, p plan, build string) {
 	r.Count("overlapping_write_pairs", res.Overlaps)
 	r.Count("frames_checked", res.Frames)
 	r.Count("payloads_checked", res.Payloads)
+	r.Count("keep_alive_messages_between_payloads", res.KeepAlives)
 	r.Count("delays_taken_at_sealed", int(res.Delays))
 	if res.Overlaps > 0 {
 		r.Count("rounds_with_overlapping_writes", 1)
